@@ -37,6 +37,71 @@ func isShape(class string) bool {
 	return class == model.EUnboundedInSendAll || class == model.EAllotmentInSendAll
 }
 
+// staticShapeProblem: does some `send [A *]` of the script have an allotment, @world or an
+// unbounded overdraft that no `max` encloses? An address that cannot be resolved without
+// running the script counts as possibly world.
+func staticShapeProblem(ec *gen.ExecCase) bool {
+	decl := map[string]*gen.VarDecl{}
+	for i := range ec.Script.Vars {
+		decl[ec.Script.Vars[i].Name] = &ec.Script.Vars[i]
+	}
+	var account func(e *gen.Expr, depth int) (string, bool)
+	account = func(e *gen.Expr, depth int) (string, bool) {
+		if e == nil || depth > 4 {
+			return "", false
+		}
+		switch e.Kind {
+		case gen.EAcct:
+			return e.Text, true
+		case gen.EVar:
+			d := decl[e.Text]
+			if d == nil {
+				return "", false
+			}
+			if d.Origin == nil {
+				val, ok := ec.Vars[e.Text]
+				return val, ok
+			}
+			if d.Origin.Fn == "meta" && len(d.Origin.Args) == 2 && d.Origin.Args[1].Kind == gen.EStr {
+				if holder, ok := account(d.Origin.Args[0], depth+1); ok {
+					val, ok := ec.Meta[holder][d.Origin.Args[1].Text]
+					return val, ok
+				}
+			}
+		}
+		return "", false
+	}
+	isWorld := func(e *gen.Expr) bool {
+		name, ok := account(e, 0)
+		return !ok || name == "world"
+	}
+	var bad func(x *gen.Src) bool
+	bad = func(x *gen.Src) bool {
+		switch x.Kind {
+		case gen.SAcct:
+			return isWorld(x.Addr)
+		case gen.SOver:
+			return x.Bound == nil || isWorld(x.Addr)
+		case gen.SInorder:
+			for _, c := range x.Subs {
+				if bad(c) {
+					return true
+				}
+			}
+			return false
+		case gen.SAllot:
+			return true
+		}
+		return false // capped: anything goes below a max
+	}
+	for _, st := range ec.Script.Stmts {
+		if st.Kind == gen.StSend && st.All && bad(st.Src) {
+			return true
+		}
+	}
+	return false
+}
+
 // agree: do model and real agree on success / failure?
 func (b *both) agree() bool {
 	return (b.m.Err == nil) == b.real.OK()
@@ -229,6 +294,12 @@ func checkC04(c any) *ev.Verdict {
 		return v
 	}
 	if isShape(b.real.ErrClass) {
+		if b.m.Err != nil && staticShapeProblem(ec) {
+			// the reference execution stopped at an earlier failure; the script does contain a
+			// source that send-all cannot take, and which of two failures is reported is not fixed
+			v.Label("shape-reported-instead-of-" + b.m.Err.Class)
+			return v
+		}
 		return v.Failf("shape-spurious", "send-all source rejected although every unbounded/allotment source is enclosed by a max: %s", b.real.Summary())
 	}
 	if !b.agree() {
